@@ -87,7 +87,7 @@ func buildVolume(r *simkit.Run, dir string, steps []simkit.Step) *vol {
 		switch s.Kind {
 		case "w":
 			a := volsim.ArgsFromStep(s, volsim.CookieOf)
-			if len(a.Data) == 0 {
+			if len(a.Data) == 0 && s.Int("empty") != 1 {
 				a.Data = []byte{byte(s.Seed)}
 			}
 			ok = write(a)
